@@ -25,6 +25,10 @@ CHECKS = {
                 technique="TLA+ wrapper spec (Wrappers.tla: RoOutcomes as a function of the base transition relation) with TLC action properties RoNeverChangesBase/RoRefusesMutators; TLC-generated (base tree, wrapper history, call) transitions replayed through the real RoFS around real MemFS/OrefaFS bases with the BASE projected and its modification times digested around every call; TLC trace validation in wrapper mode",
                 text="WrapSpec builds every base tree reachable by <=2 (quick) / <=3 (thorough) elementary calls, wraps it, and issues every VFS method template (OpenFile with 10 flag sets, all mutators, all queries, Sub followed by a mutator through the result) and every File method on handles the wrapper returned, for up to 2 / 3 consecutive wrapper calls. TLC checks on the specification that the base projection never changes and every mutator is refused with a permission-class error, and emits each transition; the driver executes it through rofs.New(base) and compares result class, the complete projection of the base (tree, bytes, modes, owners) and a digest of every ModTime before and after. Non-conforming steps are judged by FsTrace in wrapper mode.",
                 note="Trusted: the projection and the mtime digest (Lstat ModTime of every path). Read-only calls are expected to return what the base returns including the base's own catalogued deviations."),
+    "C10": dict(cat="model_checking", design="DESIGN.md section 8 C10",
+                technique="TLA+ BasePathFS spec (Wrappers.tla: virtual-namespace translation as a function of the base transition relation; TLC action property BpConfines: nothing outside B changes); TLC-generated (path string, call, history with Chdir) transitions replayed through the real BasePathFS with the WHOLE base projected; returned strings and error fields scanned for the base path; TLC trace validation with the deviation operator KF31",
+                text="The specification interprets every path in the virtual namespace rooted at B (absolute paths cleaned with '..' clamped at the virtual root, relative paths taken from the virtual working directory) and gives the call the outcome and effect of the translated call on the base - i.e. the standalone reference file system of the property. TLC checks that no transition changes anything outside B and emits all transitions for 125 path strings (absolute/relative, '.', '..', the base's own names) x 20 call templates, 1 (quick) / 2 (thorough) consecutive wrapper calls so that Chdir precedes the call. The driver runs them through basepathfs.New(base, /w/B) over MemFS and OrefaFS, comparing result, the projection of the whole base (inside and outside B) and Getwd, and flags any returned path or PathError/LinkError field that contains the base path.",
+                note="Relative paths are a known finding (KF31: handed to the base untranslated, panic when the call fails); the strict semantics stays the oracle, and edges whose source state is only reachable through the deviation are not explored further."),
     "C12": dict(cat="model_checking", design="DESIGN.md section 8 C12",
                 technique="TLA+ FailFS spec (Wrappers.tla: every wrapper call as a sequence of consulted primitives over the base transition relation, fault plan + counters as wrapper state) with TLC action properties; TLC enumerates (base tree, plan, wrapper history, call) transitions; replay through the real FailFS with a counting failure function; the logged consultation sequence must equal the specification's; TLC trace validation",
                 text="Wrappers.tla gives each FailFS method its sequence of consulted FnVFS primitives (composites Create/WriteFile/ReadFile/ReadDir/MkdirTemp/CreateTemp/Sub+mutator step by step, with the partial effects that have happened when an inner primitive fails) as a function of the base transition relation. TLC checks that an injected failure is returned (exactly for single-primitive calls, some error for composites), that the base never changes under ReadOnlyFunc, and emits every transition for: no plan (transparency: results and tree equal the base's), ReadOnlyFunc, and every plan 'the 1st/2nd consultation of F fails' for 30 primitives. The driver executes them through failfs.New(base) on MemFS and OrefaFS bases; result, base projection, mtime digest (read-only plan) and the exact list of primitives consulted during the call are compared; non-conforming steps go to FsTrace in wrapper mode.",
